@@ -16,7 +16,7 @@ import (
 
 func init() {
 	register("C08", core.Spec{
-		Decides: "on the C that the working tree's compiler generates for every std package, joined with each method's Wuffs declaration: (1) in every public method, every access through self is preceded by the null-receiver guard and the magic guard, in that order, and status-returning methods map DISABLED to 'disabled by previous error' and anything else to 'initialize not called'; (2) every io-token / ptr / refined parameter of a public method is re-validated at run time with exactly the declared bounds, disabling the object on failure; (3) public coroutines carry the active-coroutine guard with a per-struct unique id and record it at suspend; (4) every public coroutine disables the object when it exits with an error and has no return that bypasses the exit block; (5) every derived I/O pointer is loaded from the buffer's own index, written back (reader: ri, writer: wi) before every return, saved before and reloaded after every call that is handed the same buffer, and generated code never assigns a reader's wi, a writer's ri, or data.ptr/data.len of an argument buffer; (6) initialize() checks receiver, sizeof and version before touching *self, zeroes private_impl (or all of *self) unless told it is already zeroed, and only then sets vtables, choosy pointers, sub-object initializers and finally the magic; (7) rule family Q on the Wuffs sources of every struct that implements base.image_decoder: the call_sequence typestate — for every protocol method and every documented state, which statuses a call can end with and where it leaves call_sequence — equals a frozen reference machine (rejected with '#bad call sequence' exactly where the interface forbids the call and before any I/O, success moves to the documented next state on every success exit and only after the fallible work, '@end of data' after the end, 0x60 final), and the still-image decoders agree with each other. Plus must-pass rules on cgen's prologue generator so that the same holds for programs outside std",
+		Decides:    "on the C that the working tree's compiler generates for every std package, joined with each method's Wuffs declaration: (1) in every public method, every access through self is preceded by the null-receiver guard and the magic guard, in that order, and status-returning methods map DISABLED to 'disabled by previous error' and anything else to 'initialize not called'; (2) every io-token / ptr / refined parameter of a public method is re-validated at run time with exactly the declared bounds, disabling the object on failure; (3) public coroutines carry the active-coroutine guard with a per-struct unique id and record it at suspend; (4) every public coroutine disables the object when it exits with an error and has no return that bypasses the exit block; (5) every derived I/O pointer is loaded from the buffer's own index, written back (reader: ri, writer: wi) before every return, saved before and reloaded after every call that is handed the same buffer, and generated code never assigns a reader's wi, a writer's ri, or data.ptr/data.len of an argument buffer; (6) initialize() checks receiver, sizeof and version before touching *self, zeroes private_impl (or all of *self) unless told it is already zeroed, and only then sets vtables, choosy pointers, sub-object initializers and finally the magic; (7) rule family Q on the Wuffs sources of every struct that implements base.image_decoder: the call_sequence typestate — for every protocol method and every documented state, which statuses a call can end with and where it leaves call_sequence — equals a frozen reference machine (rejected with '#bad call sequence' exactly where the interface forbids the call and before any I/O, success moves to the documented next state on every success exit and only after the fallible work, '@end of data' after the end, 0x60 final), and the still-image decoders agree with each other. Plus must-pass rules on cgen's prologue generator so that the same holds for programs outside std",
 		NotDecided: "0 <= ri <= wi <= len arithmetic inside method bodies and hand-written helpers (C01/C03), 'never changes source bytes', which data makes an image decoder take which of the allowed transitions (the call_sequence machine is decided as a may-summary per state, family Q), and behaviour of the hand-written base API",
 		Assumptions: []string{"the statement-tree parser (core/ctree.go) covers the C subset cgen emits; a body it cannot parse fails as undecided",
 			"the Wuffs front end as reader of declarations (effects, parameter types and refinements)",
@@ -982,13 +982,22 @@ func runC08Cgen(c *core.Ctx) {
 				return true
 			}
 			for _, e := range cc.List {
-				if core.AnyCall(e, func(call *ast.CallExpr) bool { fn := core.Callee(fl.F.Info(), call); return fn != nil && fn.Name() == "IsIOTokenType" }) {
+				if core.AnyCall(e, func(call *ast.CallExpr) bool {
+					fn := core.Callee(fl.F.Info(), call)
+					return fn != nil && fn.Name() == "IsIOTokenType"
+				}) {
 					hasIO = true
 				}
-				if core.AnyCall(e, func(call *ast.CallExpr) bool { fn := core.Callee(fl.F.Info(), call); return fn != nil && fn.Name() == "Decorator" }) {
+				if core.AnyCall(e, func(call *ast.CallExpr) bool {
+					fn := core.Callee(fl.F.Info(), call)
+					return fn != nil && fn.Name() == "Decorator"
+				}) {
 					hasPtr = true
 				}
-				if core.AnyCall(e, func(call *ast.CallExpr) bool { fn := core.Callee(fl.F.Info(), call); return fn != nil && fn.Name() == "IsRefined" }) {
+				if core.AnyCall(e, func(call *ast.CallExpr) bool {
+					fn := core.Callee(fl.F.Info(), call)
+					return fn != nil && fn.Name() == "IsRefined"
+				}) {
 					hasRefined = true
 				}
 			}
